@@ -278,6 +278,34 @@ def rule_scope_order(prog):
                         out.add(b["d"], "no direct global lookup while the procedure's LookupTable is in scope", False, bc.loc(lk["sp"]),
                                 "a name inside a procedure is looked up in the global table although a LookupTable with the "
                                 "procedure's local table is at hand: locals and parameters no longer shadow globals", ("site",))
+    # (4b) DataType::Array.creator is the name of a type declaration *or*, for an anonymous array, the variable's own name: before a
+    #      handler looks the creator up it rules the anonymous case out by looking at the declared type expression (ArrayType)
+    for b in feature_bodies(prog):
+        bc = b["_crate"]
+        for lk, parents in hir.walk(b["body"]):
+            if lk.get("k") != "MethodCall" or lk["m"] != "lookup" or not lk["args"]:
+                continue
+            kl = hir.path_local(hir.strip_ref(lk["args"][0]))
+            if not (kl and kl["name"] == "creator"):
+                continue
+            ruled_out = False
+            chain = list(parents) + [lk]
+            for i_, pr in enumerate(chain[:-1]):
+                if pr.get("k") != "Block":
+                    continue
+                kids = list(pr["stmts"]) + ([pr["expr"]] if pr.get("expr") else [])
+                idx = [j for j, k_ in enumerate(kids) if k_ is chain[i_ + 1]]
+                for k_ in kids[:idx[0]] if idx else []:
+                    iff = hir.strip(hir.stmt_inner(k_) or k_) if k_.get("k") in ("Semi", "Expr") else hir.strip(k_)
+                    if iff.get("k") == "If" and any(True for _ in hir.nodes(iff["then"], "Ret")):
+                        for m_ in hir.nodes_deep(prog, iff["cond"], 2, crate=bc):
+                            pats = [a_["pat"] for a_ in m_["arms"]] if m_.get("k") == "Match" else [m_["pat"]] if m_.get("k") == "LetExpr" else []
+                            if any(v.endswith("ast::TypeExpression::ArrayType") for pt in pats for v in hir.pat_variants_all(pt)):
+                                ruled_out = True
+            n_sites += 1
+            out.add(b["d"], "an anonymous array (creator = the variable itself) is ruled out before the creator is looked up", ruled_out,
+                    bc.loc(lk["sp"]), "for `var x: array [3] of int` the creator is `x`; looked up in the global table it finds an unrelated "
+                    "`type x` (or the predefined `int` for a variable named int): go-to-type-definition answers with a wrong declaration", ("site",))
     # (5) the semantic analysis of a procedure body receives the scoped LookupTable: a function that has one as parameter
     #     never resolves a name directly against the global table
     for b in fc.bodies:
@@ -382,23 +410,8 @@ def rule_entry_guard(prog):
                             type_only = True
                 if int_ret and type_only:
                     guarded, why = True, "`int` early return in a type-only arm"
-            # (c) entry looked up by the creator of an array type (always a user declaration)
-            if guarded is None and ep:
-                for l in hir.nodes(b["body"]):
-                    pat = None
-                    init = None
-                    if l.get("k") == "Let":
-                        pat, init = l["pat"], l.get("init")
-                    elif l.get("k") == "LetExpr":
-                        pat, init = l["pat"], l["init"]
-                    if pat is None or init is None:
-                        continue
-                    if any("%s#%s" % (x["name"], x["id"]) == ep for x in hir.pat_bindings(pat)):
-                        for lk in hir.nodes(init, "MethodCall"):
-                            if lk["m"] == "lookup" and lk["args"]:
-                                kl = hir.path_local(hir.strip_ref(lk["args"][0]))
-                                if kl and kl["name"] == "creator":
-                                    guarded, why = True, "looked up by array creator"
+            # (an entry looked up by the creator of an array type is no exception: an anonymous array's creator is the variable's own
+            #  name, which may coincide with a predefined entry such as `int`)
             out.add(b["d"], "location of entry `%s` is produced only for user declarations" % (ep or "?").split("#")[0],
                     bool(guarded), c.loc(call["sp"]),
                     why or "predefined entries (printi, int, ...) have the empty range 0..0: turning them into a location "
@@ -832,6 +845,20 @@ def rule_comment_pairing(prog):
                     "`%s` has %d own tokens (%s); its parser skips comments in front of each of them, but the formatter only "
                     "re-attaches the comments in front of the first token: every other comment inside is lost"
                     % (label, len(toks), ", ".join(toks)), (label.split("::")[0],))
+    # parameters and local variable declarations are printed by their procedure: each gets an *all comments* helper application
+    # (their parsers skip comments in front of name, `:` and type; only the comments in front of the declaration are in `doc`)
+    applied = {}
+    for i_ in out.items:
+        if i_.key.startswith("COMMENT-PAIRING:Format for ") and ":comments inside " in i_.key:
+            applied.setdefault(i_.key.split(":comments inside ")[1].split("#")[0].replace(" are kept", ""), []).append(i_)
+    for decl in ("ParameterDeclaration", "VariableDeclaration"):
+        hits = applied.get(decl, [])
+        seen += 1
+        out.add("Format for ProcedureDeclaration", "every %s is printed through a comment helper that keeps all comments of its slice" % decl,
+                bool(hits) and all(h.verdict == "holds" for h in hits), "",
+                "no helper that re-attaches the comment *tokens* of the declaration's slice is applied to `%s`: comments written inside "
+                "the declaration (behind `var`, the name or `:`) exist only as tokens - the `doc` field holds just the ones in front - "
+                "and are dropped" % decl, ("decl",))
     # every variant of Statement / GlobalDeclaration re-attaches (at least) the comments in front of its first token:
     # in its arm, or in the Format impl the arm delegates to, or by printing the raw token slice (AstInfo::fmt)
     impl_has_helper = {}
@@ -951,4 +978,52 @@ def rule_same_finder(prog):
                 c.loc(b["sp"]), "")
     out.add("references", "find and rename use the same finder with the same arguments",
             len(sigs["find"]) == 1 and sigs["find"] == sigs["rename"], "", "find: %s rename: %s" % (sigs["find"], sigs["rename"]))
+    # prepare-rename offers a rename exactly when rename performs one: both refuse under the same conditions
+    def shape(e, depth=0):
+        e = hir.strip_ref(e)
+        k = e.get("k")
+        if depth > 6:
+            return "?"
+        if k == "Lit":
+            return "lit:%s" % hir.lit_value(e)
+        if k == "Path":
+            if last(e["res"].get("ctor_of", "")) == "None":
+                return "None"
+            if e["res"].get("k") == "Local":
+                return "local<%s>" % c.tstr(e["t"]).replace(" ", "")
+            return "path:%s" % last(e["res"].get("p", "?"))
+        if k == "Field":
+            return ".%s" % e["name"]
+        if k == "Call":
+            d = hir.path_def(e["f"])
+            nm = last((d or {}).get("ctor_of") or (d or {}).get("p", "?"))
+            return "%s(%s)" % (nm, ",".join(shape(a, depth + 1) for a in e["args"]))
+        if k == "MethodCall":
+            return "%s.%s(%s)" % (shape(e["recv"], depth + 1), e["m"], ",".join(shape(a, depth + 1) for a in e["args"]))
+        if k == "Binary":
+            ops = sorted([shape(e["l"], depth + 1), shape(e["r"], depth + 1)]) if e["op"] in ("==", "!=", "&&", "||") else [shape(e["l"], depth + 1), shape(e["r"], depth + 1)]
+            return "(%s %s %s)" % (ops[0], e["op"], ops[1])
+        if k == "Unary":
+            return "%s%s" % (e.get("op"), shape(e.get("e", {}), depth + 1))
+        return k or "?"
+
+    refusals = {}
+    for fn in ("rename", "prepare_rename"):
+        b = prog.body("lsp4spl::features::references::" + fn)
+        if b is None:
+            continue
+        conds = []
+        for iff in hir.nodes(b["body"], "If"):
+            if hir.strip(iff["cond"]).get("k") == "LetExpr":
+                continue
+            rets = [r for r in hir.nodes(iff["then"], "Ret")]
+            returns_none = any(any(last(pth["res"].get("ctor_of", "")) == "None" for pth in hir.nodes(r, "Path")) for r in rets)
+            if returns_none:
+                conds.append(shape(iff["cond"]))
+        refusals[fn] = sorted(conds)
+    if len(refusals) == 2:
+        out.add("references", "prepare-rename refuses under exactly the conditions under which rename refuses",
+                refusals["rename"] == refusals["prepare_rename"] and bool(refusals["rename"]), "",
+                "rename refuses on %s, prepare-rename on %s: a name for which one of them answers and the other does not is offered for "
+                "renaming and then not renamed (or the other way round)" % (refusals["rename"], refusals["prepare_rename"]))
     return out
